@@ -62,6 +62,10 @@ fn main() {
   if let Ok(f) = std::env::var("VERIF_TRACE") {
     let _ = tracing_subscriber::fmt().with_env_filter(tracing_subscriber::EnvFilter::new(f)).with_writer(std::io::stderr).try_init();
   }
+  #[cfg(feature = "uring")]
+  if args[0] == "c20-child" {
+    std::process::exit(props::c20::child::main());
+  }
   engine::install_panic_hook();
   let mut run = Run::new(&id, tier, seed);
   if let Some(path) = replay {
